@@ -578,6 +578,12 @@ func ruleStaleDetection(c *Ctx) {
 	notHB := guardRel("source != heartbeat", "!=", same(source), anyVal)
 	notStale := guardCall("!checkStaleOperator", false, callMatcher(stale))
 	c.need(rule, disp, "call SendScheduleCommand", instrCallMatcher(send), []Ev{notHB, notStale}, anyOf, "at a heartbeat the next step is sent only if the operator was not judged stale")
+	// the region an operator is driven with at a heartbeat is one the cluster accepted: a refused (stale)
+	// report would be judged against the operator's steps and stamped on its commands
+	hh := P.Method("server/cluster", "RaftCluster", "HandleRegionHeartbeat")
+	prh := F(P.Method("server/cluster", "RaftCluster", "processRegionHeartbeat"))
+	c.need(rule, hh, "call/defer Dispatch", instrCallMatcher(F(disp)), []Ev{newOkEv(hh, "ok(processRegionHeartbeat)", callMatcher(prh))}, all,
+		"the operator controller is driven by a heartbeat only after the cluster accepted that heartbeat")
 	// checkStaleOperator depends on the step's own precondition and on the conf-version accounting
 	cs := P.Method(sch, "OperatorController", "checkStaleOperator")
 	safety := P.IMethod("server/schedule/operator", "OpStep", "CheckSafety")
